@@ -10,7 +10,7 @@ BUDGET = {"quick": 55, "thorough": 900}
 QUICK_CASES = 1000  # generator items in the quick tier (fixed amount of work; BUDGET is then only a safety cap)
 FLOOR = {"quick": 300, "thorough": 2000}
 TIMEOUT = 120
-REQUIRED_OBS = ["steps", "has_service_checks", "calls_made", "calls_ran_expected_generation", "not_found_as_expected", "responses_checked", "outgoing_calls_checked", "redefinitions", "rejected_declarations", "overlapping_call_pairs"]
+REQUIRED_OBS = ["steps", "has_service_checks", "calls_made", "calls_ran_expected_generation", "not_found_as_expected", "responses_checked", "outgoing_calls_checked", "redefinitions", "rejected_declarations", "overlapping_call_pairs", "late_imports"]
 RULE = (
     "random histories over two script files and a dynamically redefined global function: @service functions with 1-2 names (stacked "
     "decorators), names shared inside a file and across files (second context must be refused), supports_response none/optional/only; "
@@ -150,9 +150,17 @@ def drop_dyn():
     del dyn
 
 @service
+def late_import():
+    # first import of a module at run time: its services exist from now on
+    import svcmod
+    vf.rec('late_import_done', v=svcmod.VALUE)
+
+@service
 def outgoing(a=None, b=None):
     service.call('vf', 'sink', a=a, b=b, how='call', blocking=True)
     vf.sink(a=a, b=b, how='attr', blocking=True)
+    # data fields that merely share a name with a call option (wrong type for the option): delivered as data
+    service.call('vf', 'sink', a=a, how='odd', context='ctx-as-data', return_response=0, blocking=True)
     r = service.call('vf', 'echo', a=a, return_response=True)
     vf.rec('echo', r=r)
 '''
@@ -173,7 +181,7 @@ def run_case(case):
     obs = {k: 0 for k in REQUIRED_OBS}
     cover = {"ops": []}
     sink = []
-    universe = NAMES + ["dyn"]
+    universe = NAMES + ["dyn", "modsvc"]
 
     async def check(w, label):
         from homeassistant.core import SupportsResponse
@@ -308,6 +316,17 @@ def run_case(case):
                 m.dyn = None
                 obs["redefinitions"] += 1
                 await w.hass.services.async_call("pyscript", "drop_dyn", {}, blocking=True)
+            elif k < 0.90:
+                op = "late import"
+                if not m.present["a.py"]:
+                    continue
+                # a module that declares a service is imported for the first time by a running function
+                if "modsvc" not in m.live:
+                    m.owner["modsvc"] = "modules.svcmod"
+                    m.live["modsvc"] = [(777, "optional")]
+                obs["late_imports"] += 1
+                await w.hass.services.async_call("pyscript", "late_import", {}, blocking=True)
+                await w.settle()
             else:
                 op = "outgoing"
                 if not m.present["a.py"]:
@@ -318,8 +337,8 @@ def run_case(case):
                 await w.hass.services.async_call("pyscript", "outgoing", {"a": a, "b": b}, blocking=True)
                 await w.settle()
                 got = sink[n0:]
-                obs["outgoing_calls_checked"] += 2
-                want = [{"a": a, "b": b, "how": "call"}, {"a": a, "b": b, "how": "attr"}]
+                obs["outgoing_calls_checked"] += 3
+                want = [{"a": a, "b": b, "how": "call"}, {"a": a, "b": b, "how": "attr"}, {"a": a, "how": "odd", "context": "ctx-as-data", "return_response": 0}]
                 if got != want:
                     viol.append({"mech": "outgoing_call_wrong_data", "msg": f"service.call delivered {got} expected {want}"})
                 ech = [r for r in w.rec[start:] if r["tag"] == "echo"]
@@ -336,11 +355,12 @@ def run_case(case):
         m.owner.clear()
         await w.unload()
         await w.quiesce()
-        for name in universe + ["redefine", "drop_dyn", "outgoing"]:
+        for name in universe + ["redefine", "drop_dyn", "outgoing", "late_import"]:
             if w.hass.services.has_service("pyscript", name):
                 viol.append({"mech": "undeclared_service_registered", "msg": f"after unload pyscript.{name} is still registered"})
 
-    w, _ = run_world(main, files={"a.py": m.render("a.py"), "b.py": m.render("b.py")}, legacy=legacy, tick=rng.choice([1e-6, 5e-6, 5e-5]), keep=True)
+    svcmod = "VALUE = 5\n\n@service('pyscript.modsvc', supports_response='optional')\ndef modsvc(**kw):\n    x0 = kw.get('x')\n    vf.rec('svc', fn='modsvc', gen=777, kw=kw)\n    if kw.get('slow'):\n        task.sleep(kw['slow'])\n        vf.rec('svc_end', fn='modsvc', x0=x0, x_now=kw.get('x'))\n    return {'gen': 777, 'x': kw.get('x')}\n"
+    w, _ = run_world(main, files={"a.py": m.render("a.py"), "b.py": m.render("b.py"), "modules/svcmod.py": svcmod}, legacy=legacy, tick=rng.choice([1e-6, 5e-6, 5e-5]), keep=True)
     obs["rejected_declarations"] = m.rejected
     errs = [r for r in w.logs(level="ERROR") if "can't register service" not in r["msg"] and "already defined in" not in r["msg"]]
     if errs:
